@@ -42,6 +42,39 @@ def direct(j):
     return None
 
 
+def tamper(f):
+    """extend every list inside a parse result (what a caller may do with ITS result): returns True if something was changed"""
+    changed = False
+    if isinstance(f, (sansldap.FilterAnd, sansldap.FilterOr)):
+        for x in list(f.filters):
+            changed |= tamper(x)
+        f.filters.append(sansldap.FilterPresent("injected"))
+        changed = True
+    elif isinstance(f, sansldap.FilterNot):
+        changed |= tamper(f.filter)
+    elif isinstance(f, sansldap.FilterSubstrings):
+        f.any.append(b"injected")
+        changed = True
+    return changed
+
+
+def fresh_results(j):
+    """what an earlier caller did to its own parse result must not show in a later parse of the same text"""
+    f = C.filter_from_json(j)
+    text = str(f)
+    try:
+        first = sansldap.LDAPFilter.from_string(text)
+        if not tamper(first):
+            return None
+        again = sansldap.LDAPFilter.from_string(text)
+    except BaseException:  # noqa: BLE001
+        return None      # reported by `direct`
+    if again != f:
+        return {"key": None, "what": "from_string(str(f)) differs from f after an earlier parse result of the same text was extended by its "
+                "caller (parse results are shared)", "filter": j, "text": text, "parsed": C.filter_to_json(again)}
+    return None
+
+
 def run(ctx):
     rng = ctx.rng
     n = ctx.scale(3000, 200000)
@@ -63,6 +96,11 @@ def run(ctx):
         v = direct(j)
         if v:
             violations.append(v)
+        elif j["k"] in ("and", "or", "not", "substr") and hist["fresh-results"] < ctx.scale(1500, 30000):
+            hist["fresh-results"] += 1
+            v = fresh_results(j)
+            if v:
+                violations.append(v)
     sub = trees[: 768] + trees[768:: max(1, len(trees) // ctx.scale(2500, 30000))]
     for j in sub:
         reqs.append({"op": "ftext", "filter": j})
@@ -78,7 +116,7 @@ def run(ctx):
         "distinct_nontrivial": len(shapes),
         "rule": "filter trees of all 10 kinds (depth ≤ 8, fan-out ≤ 4) with RFC-valid attribute descriptions (descriptors, numeric OIDs, options) and "
                 "values drawn from {empty, every single byte 0-255 at start/middle/end, specials at both ends, injection strings, non-UTF-8, random}; "
-                "each is printed, parsed back and compared; distinct = distinct tree shapes; a sample is replayed on the Lean model (toText and parse)",
+                "each is printed, parsed back and compared; for trees with lists the first parse result is extended and the text parsed again; distinct = distinct tree shapes; a sample is replayed on the Lean model (toText and parse)",
         "samples": [{"filter": trees[800], "text": str(C.filter_from_json(trees[800]))}],
         "histogram": dict(sorted(hist.items())),
         "requests": len(reqs),
